@@ -1,24 +1,25 @@
 (* C12 - the theorems about every reachable state of the writer protocol. *)
 From DV Require Import Base.Prelude Model.VersM Model.WritersM.
-From DV Require Import Proofs.VersInv Proofs.VersThms Proofs.WritersInv Proofs.WritersSerial.
+From DV Require Import Proofs.VersInv Proofs.VersThms Proofs.WritersInv Proofs.WritersSerial Proofs.WritersNoFail.
 Import VersM WritersM.
 
 Local Open Scope nat_scope.
 
-Record WInv (s : st) : Prop := mkWInv { w_a : InvA s; w_b : InvB s; w_c : InvC s }.
+Record WInv (s : st) : Prop := mkWInv { w_a : InvA s; w_b : InvB s; w_c : InvC s; w_d : InvD s }.
 
 Theorem winv_init progs : WInv (init progs).
-Proof. constructor; [apply initA|apply initB|apply initC]. Qed.
+Proof. constructor; [apply initA|apply initB|apply initC|apply initD]. Qed.
 
 Theorem winv_step s t : WInv s -> enabled s t = true -> WInv (step s t).
 Proof.
-  intros [HA HB HC] He. constructor.
+  intros [HA HB HC HD] He. constructor.
   - apply stepA; assumption.
   - apply stepB; [assumption|assumption|].
     intros id c Hpc.
     assert (Eid : id = next_id (versions (vz s))) by (apply (c_id s HC t); rewrite Hpc; reflexivity).
     destruct (vstep_commit (vz s) id c (c_inv s HC) (c_nowtxn s HC) Eid) as [z' [E _]]. eauto.
   - apply stepC; assumption.
+  - apply stepD; assumption.
 Qed.
 
 Lemma winv_sched_step s t : WInv s -> WInv (sched_step s t).
@@ -128,7 +129,7 @@ Qed.
 Lemma T_deadlock_free s t :
   Reachable s -> pcs s t <> Done -> exists t', enabled s t' = true.
 Proof.
-  intros R Hnd. pose proof (reachable_winv s R) as [HA HB HC].
+  intros R Hnd. pose proof (reachable_winv s R) as [HA HB HC HD].
   destruct (lock s) as [t0|] eqn:Hl.
   - (* the holder of the lock can always move *)
     exists t0. pose proof (a_lock_holds s HA t0 Hl) as Hh. unfold enabled.
@@ -170,7 +171,7 @@ Lemma T_final_state s :
   hist (vz s) = serial (map (prg s) (admitted s)) /\
   last_opt (versions (vz s)) = last_opt (serial (map (prg s) (admitted s))).
 Proof.
-  intros R Hd. pose proof (reachable_winv s R) as [HA HB HC].
+  intros R Hd. pose proof (reachable_winv s R) as [HA HB HC HD].
   assert (Hw : wtxn s = None).
   { destruct (wtxn s) as [t|] eqn:E; [|reflexivity]. pose proof (b_w1 s HB t E) as Ha. rewrite Hd in Ha. discriminate. }
   assert (Hq : wq s = []).
@@ -200,10 +201,39 @@ Lemma T_commit_never_fails s t id c :
   exists z', VersM.step (vz_set_wtxn (vz s) (Some (mkW id c true))) WCommit = Ok (z', RUnit) /\
              hist z' = hist (vz s) ++ [mkV id c] /\ last_opt (versions z') = Some (mkV id c).
 Proof.
-  intros R Hpc. pose proof (reachable_winv s R) as [HA HB HC].
+  intros R Hpc. pose proof (reachable_winv s R) as [HA HB HC HD].
   split; [apply (b_w2 s HB); rewrite Hpc; reflexivity|].
   assert (Eid : id = next_id (versions (vz s))) by (apply (c_id s HC t); rewrite Hpc; reflexivity).
   destruct (vstep_commit (vz s) id c (c_inv s HC) (c_nowtxn s HC) Eid) as [z' [E [_ [_ [Hh Hl]]]]]. eauto.
+Qed.
+
+(* no assert, index operation or set.remove of any critical section ever fails *)
+Lemma T_no_failure s : Reachable s -> failed s = None.
+Proof. intros R. apply (d_nofail s (w_d s (reachable_winv s R))). Qed.
+
+(* the ghost orders are append-only: nobody is ever inserted in front of a waiting writer *)
+Lemma T_orders_append_only s t :
+  Reachable s -> enabled s t = true ->
+  (arrivals (step s t) = arrivals s \/ arrivals (step s t) = arrivals s ++ [t]) /\
+  (admitted (step s t) = admitted s \/ admitted (step s t) = admitted s ++ [t]) /\
+  (ended (step s t) = ended s \/ ended (step s t) = ended s ++ [t]).
+Proof.
+  intros R He. unfold step.
+  destruct (pcs s t) as [c|c|nx|e| |id|id c ch [|e todo]|h i c|] eqn:Hpc; cbn; try tauto.
+  destruct c as [ev|id c cm|sel|h|p].
+  - cbn [exec_crit].
+    destruct ((match wtxn s with None => true | Some _ => false end) && oeqb ev (wevent s));
+      destruct ev; cbn; tauto.
+  - cbn [exec_crit]. destruct (if cm then _ else _) as [[z r]|e|e]; try (cbn; tauto).
+    destruct (wtxn s) as [t'|]; [|cbn; tauto]. destruct (Nat.eqb t' t); [|cbn; tauto].
+    match goal with |- context [wakeup ?s0] => destruct (wakeup_fields s0) as [_ [_ [_ [_ [_ [_ [_ [W8 [W9 W10]]]]]]]]]; rewrite W8, W9, W10 end.
+    cbn. tauto.
+  - destruct (exec_crit_other s t (CReaderOpen sel)) as [nx [_ [_ [_ [_ [_ [_ [_ [_ [_ [_ [F7 [F8 F9]]]]]]]]]]]]]; try discriminate.
+    rewrite F7, F8, F9. tauto.
+  - destruct (exec_crit_other s t (CReaderEnd h)) as [nx [_ [_ [_ [_ [_ [_ [_ [_ [_ [_ [F7 [F8 F9]]]]]]]]]]]]]; try discriminate.
+    rewrite F7, F8, F9. tauto.
+  - destruct (exec_crit_other s t (CSetPolicy p)) as [nx [_ [_ [_ [_ [_ [_ [_ [_ [_ [_ [F7 [F8 F9]]]]]]]]]]]]]; try discriminate.
+    rewrite F7, F8, F9. tauto.
 Qed.
 
 (* ------------------------------------------------------------------ readers *)
@@ -213,7 +243,7 @@ Lemma T_lock_only_in_critical_sections s t :
   holds_lock (pcs s t) = true /\ enabled s t = true /\
   (lock (step s t) = None \/ lock (step (step s t) t) = None).
 Proof.
-  intros R Hl. pose proof (reachable_winv s R) as [HA HB HC].
+  intros R Hl. pose proof (reachable_winv s R) as [HA HB HC HD].
   pose proof (a_lock_holds s HA t Hl) as Hh. split; [exact Hh|].
   unfold enabled, step. destruct (pcs s t) as [c|c|nx| | | | | |] eqn:Hpc; cbn in Hh; try discriminate.
   - split; [reflexivity|]. right.
@@ -288,7 +318,7 @@ Lemma T_progress s t :
   Reachable s -> enabled s t = true ->
   weight (nedits s t) (pcs (step s t) t) < weight (nedits s t) (pcs s t).
 Proof.
-  intros R He. pose proof (reachable_winv s R) as [HA HB HC].
+  intros R He. pose proof (reachable_winv s R) as [HA HB HC HD].
   unfold step. unfold enabled in He.
   destruct (pcs s t) as [c|c|nx|e| |id|id c ch todo|h i c|] eqn:Hpc.
   - cbn. rewrite upd_same. destruct c as [[e|]| | | |]; cbn; lia.
